@@ -95,7 +95,7 @@ def frame(dialect, lines):
     return bytes(prog)
 
 
-def gen_prog(r, dialect, maxlines=14, targets=None, sweep_tokens=None, long_lines=False):
+def gen_prog(r, dialect, maxlines=14, targets=None, sweep_tokens=None, long_lines=False, stray_closers=False):
     """A well-formed program.  Loop depth never goes negative and an opener
     never precedes a closer of the same kind on one line (the documents do
     not define the indentation of those cases)."""
@@ -134,6 +134,10 @@ def gen_prog(r, dialect, maxlines=14, targets=None, sweep_tokens=None, long_line
                 post.append(o)
                 if r.random() < 0.5:
                     post += b'I'
+        if stray_closers and r.random() < 0.25:
+            # closers without an open loop (IF..THEN NEXT, stray UNTIL): the depth goes negative
+            for _ in range(r.choice([1, 1, 2, 5])):
+                pre.append(r.choice([0xED, 0xFD]))
         if len(pre) + len(body) + len(post) > maxbody:
             body = bytearray()
         for _ in closed:
